@@ -11,7 +11,11 @@ for its PDU length or re-encoding it never panics.  Re-encoding a decoded value 
 gives an equivalent value (same meaning, `sem`): decoding is idempotent up to normalisation.
 
 * Responses: proved for every byte string (`rsp_decoded_coherent`), including register responses
-  with an odd byte count (quantity = byte count / 2, the last byte is ignored; re-encoding drops it).
+  with an odd byte count (quantity = byte count / 2; the decoder keeps the whole registers only, the
+  dangling last byte is not part of the decoded value).  A decoded register payload therefore holds
+  EXACTLY the bytes its quantity promises, `data.length = quantity * 2` (`rsp_decoded_data_exact`), so it
+  can be handed to any other constructor/encoder that trusts that relation (the cross-kind reuse
+  theorem is `C19X.rsp_data_reusable_in_request`).
 * Requests: the unedited crate accepts a write-multiple-coils request whose byte count contradicts
   its quantity (open finding D5b; pinned by the crate's own unit test
   `deserialize_requests::write_multiple_coils`, which asserts that `0F 33 11 00 04 00` is accepted),
@@ -122,6 +126,52 @@ theorem rsp_decoded_coherent (b : Bytes) (v : Response) (h : Response.decode b =
   intro buf
   rw [Response.encode_eq v buf hd.encodable]
   split <;> simp
+
+/-- the register payload of a response (if it has one) holds exactly the bytes its quantity promises —
+    no dangling byte, no surplus -/
+def RspDataExact : Response → Prop
+  | .readInputRegisters d | .readHoldingRegisters d | .readWriteMultipleRegisters d =>
+      d.data.length = d.quantity * 2
+  | _ => True
+
+instance (v : Response) : Decidable (RspDataExact v) := by
+  cases v <;> unfold RspDataExact <;> infer_instance
+
+/-- **decoded register payloads are exact.**  Every response the decoder returns — for every byte
+    string, odd byte counts included — carries a register container (if any) with
+    `data.length = quantity * 2`; and the byte count it was decoded from bounds it: `quantity * 2 ≤ 255`. -/
+theorem rsp_decoded_data_exact (b : Bytes) (v : Response) (h : Response.decode b = .ok v) :
+    RspDataExact v ∧
+    (∀ d, (v = .readInputRegisters d ∨ v = .readHoldingRegisters d ∨ v = .readWriteMultipleRegisters d) →
+      d.data.length = d.quantity * 2 ∧ d.quantity * 2 ≤ 255) := by
+  have hd := Response.decode_inv h
+  cases hd with
+  | readInputRegisters bc data hl | readHoldingRegisters bc data hl | readWriteMultipleRegisters bc data hl =>
+    have := bc.toNat_lt
+    refine ⟨hl, fun d hv => ?_⟩
+    have hdd : d = ⟨data, bc.toNat / 2⟩ := by
+      rcases hv with hv | hv | hv <;> cases hv <;> rfl
+    subst hdd
+    exact ⟨hl, by show bc.toNat / 2 * 2 ≤ 255; omega⟩
+  | _ =>
+    refine ⟨trivial, fun d hv => ?_⟩
+    rcases hv with hv | hv | hv <;> cases hv
+
+/-- **decoding is idempotent on the nose for responses**: re-encoding a decoded response (into any buffer)
+    and decoding the bytes written gives back the very same value, not merely an equivalent one -/
+theorem rsp_redecode_exact (b : Bytes) (v : Response) (h : Response.decode b = .ok v) :
+    Response.decode v.image = .ok v ∧
+    ∀ buf n out, v.encode buf = .ok (n, out) → Response.decode (out.take n) = .ok v := by
+  have hd := Response.decode_inv h
+  refine ⟨hd.redecode_exact, fun buf n out he => ?_⟩
+  rw [Response.encode_eq v buf hd.encodable] at he
+  by_cases hb : buf.length < v.image.length
+  · rw [if_pos hb] at he; cases he
+  · rw [if_neg hb] at he
+    simp only [Res.ok.injEq, Prod.mk.injEq] at he
+    obtain ⟨rfl, rfl⟩ := he
+    rw [take_image]
+    exact hd.redecode_exact
 
 /-- a decoded response encodes successfully into every buffer of at least `pduLen` bytes
     (a decoded coil response has quantity = 8 × byte count ≤ 2040) -/
@@ -407,31 +457,39 @@ example : Tcp.decodeRequest [0, 1, 0, 0, 0, 6, 0x11, 0x01, 0, 0x13, 0, 0x25] = .
   decide +kernel
 /-- … and an odd-byte-count register response over RTU and over TCP -/
 example : Rtu.clientDecodeResponse [0x11, 0x03, 0x03, 0xAB, 0xCD, 0xEF, 35, 226] =
-    .ok (some (0x11, .ok (.readHoldingRegisters ⟨[0xAB, 0xCD, 0xEF], 1⟩))) := by decide +kernel
+    .ok (some (0x11, .ok (.readHoldingRegisters ⟨[0xAB, 0xCD], 1⟩))) := by decide +kernel
 example : Tcp.decodeResponse [0, 1, 0, 0, 0, 6, 0x11, 0x03, 0x03, 0xAB, 0xCD, 0xEF] =
-    .ok (some (1, 0x11, .ok (.readHoldingRegisters ⟨[0xAB, 0xCD, 0xEF], 1⟩))) := by decide +kernel
+    .ok (some (1, 0x11, .ok (.readHoldingRegisters ⟨[0xAB, 0xCD], 1⟩))) := by decide +kernel
 
-/-- a register response with an ODD byte count (3): accepted; the value has length 1, item 0 is 0xABCD,
-    there is nothing at index 1 nor at `usize::MAX`, iteration yields one item, re-encoding drops the
-    stray byte (`03 02 AB CD`) and leaves the rest of the buffer alone, and decoding that again gives a
-    value with the same meaning -/
+/-- a register response with an ODD byte count (3): accepted; the decoded value is backed by the two bytes
+    of its one whole register (the stray byte 0xEF is NOT part of it: `data.length = quantity * 2`), it
+    has length 1, item 0 is 0xABCD, there is nothing at index 1 nor at `usize::MAX`, iteration yields one
+    item, re-encoding gives `03 02 AB CD` and leaves the rest of the buffer alone, and decoding that
+    again gives the very same value -/
 example :
-    Response.decode [0x03, 0x03, 0xAB, 0xCD, 0xEF] = .ok (.readHoldingRegisters ⟨[0xAB, 0xCD, 0xEF], 1⟩) ∧
-    (Data.mk [0xAB, 0xCD, 0xEF] 1).len = 1 ∧
-    (Data.mk [0xAB, 0xCD, 0xEF] 1).get 0 = .ok (some 0xABCD) ∧
-    (Data.mk [0xAB, 0xCD, 0xEF] 1).get 1 = .ok none ∧
-    (Data.mk [0xAB, 0xCD, 0xEF] 1).get 18446744073709551615 = .ok none ∧
-    (Data.mk [0xAB, 0xCD, 0xEF] 1).iter = .ok [0xABCD] ∧
-    (Response.readHoldingRegisters ⟨[0xAB, 0xCD, 0xEF], 1⟩).pduLen = .ok 4 ∧
-    (Response.readHoldingRegisters ⟨[0xAB, 0xCD, 0xEF], 1⟩).encode [9, 9, 9, 9, 9, 9] = .ok (4, [0x03, 0x02, 0xAB, 0xCD, 9, 9]) ∧
-    (Response.readHoldingRegisters ⟨[0xAB, 0xCD, 0xEF], 1⟩).encode [9, 9, 9] = .err .bufferSize ∧
+    Response.decode [0x03, 0x03, 0xAB, 0xCD, 0xEF] = .ok (.readHoldingRegisters ⟨[0xAB, 0xCD], 1⟩) ∧
+    RspDataExact (.readHoldingRegisters ⟨[0xAB, 0xCD], 1⟩) ∧
+    (Data.mk [0xAB, 0xCD] 1).len = 1 ∧
+    (Data.mk [0xAB, 0xCD] 1).get 0 = .ok (some 0xABCD) ∧
+    (Data.mk [0xAB, 0xCD] 1).get 1 = .ok none ∧
+    (Data.mk [0xAB, 0xCD] 1).get 18446744073709551615 = .ok none ∧
+    (Data.mk [0xAB, 0xCD] 1).iter = .ok [0xABCD] ∧
+    (Response.readHoldingRegisters ⟨[0xAB, 0xCD], 1⟩).pduLen = .ok 4 ∧
+    (Response.readHoldingRegisters ⟨[0xAB, 0xCD], 1⟩).encode [9, 9, 9, 9, 9, 9] = .ok (4, [0x03, 0x02, 0xAB, 0xCD, 9, 9]) ∧
+    (Response.readHoldingRegisters ⟨[0xAB, 0xCD], 1⟩).encode [9, 9, 9] = .err .bufferSize ∧
     Response.decode [0x03, 0x02, 0xAB, 0xCD] = .ok (.readHoldingRegisters ⟨[0xAB, 0xCD], 1⟩) ∧
-    (Response.readHoldingRegisters ⟨[0xAB, 0xCD], 1⟩).sem = (Response.readHoldingRegisters ⟨[0xAB, 0xCD, 0xEF], 1⟩).sem ∧
-    (Response.readHoldingRegisters ⟨[0xAB, 0xCD, 0xEF], 1⟩).sem = some (.readHoldingRegisters [0xABCD]) := by
+    (Response.readHoldingRegisters ⟨[0xAB, 0xCD], 1⟩).sem = some (.readHoldingRegisters [0xABCD]) := by
   decide +kernel
 
-example : RspCoherent (.readHoldingRegisters ⟨[0xAB, 0xCD, 0xEF], 1⟩) :=
+/-- byte counts 0 and 1 decode to the empty register list backed by no bytes -/
+example : Response.decode [0x04, 0x01, 0x7F] = .ok (.readInputRegisters ⟨[], 0⟩) ∧
+    Response.decode [0x17, 0x00] = .ok (.readWriteMultipleRegisters ⟨[], 0⟩) := by decide +kernel
+
+example : RspCoherent (.readHoldingRegisters ⟨[0xAB, 0xCD], 1⟩) :=
   rsp_decoded_coherent [0x03, 0x03, 0xAB, 0xCD, 0xEF] _ (by decide +kernel)
+
+example : RspDataExact (.readHoldingRegisters ⟨[0xAB, 0xCD], 1⟩) :=
+  (rsp_decoded_data_exact [0x03, 0x03, 0xAB, 0xCD, 0xEF] _ (by decide +kernel)).1
 
 /-- a write-multiple-registers request: two words, both readable, nothing beyond, re-encoding
     reproduces the input -/
